@@ -46,6 +46,7 @@ class Ctx:
         self.unknowns = 0
         self.notes = {}
         self.concretised = 0
+        self.decided = {}  # z3 AST id -> (AST kept alive, value): conditions already decided on this path
 
     # -- variables -------------------------------------------------------
     def int(self, name, lo=None, hi=None):
@@ -95,6 +96,9 @@ class Ctx:
             return True
         if z3.is_false(cond):
             return False
+        hit = self.decided.get(cond.get_id())
+        if hit is not None:
+            return hit[1]  # the same condition was decided earlier on this path: it is in the path condition already
         if self.pos < len(self.trace):
             val = self.trace[self.pos][0]
         else:
@@ -119,6 +123,9 @@ class Ctx:
         c = cond if val else z3.Not(cond)
         self.solver.add(c)
         self.pc.append(c)
+        self.decided[cond.get_id()] = (cond, val)
+        neg = z3.simplify(z3.Not(cond))
+        self.decided[neg.get_id()] = (neg, not val)
         return val
 
     def concretise(self, term):
